@@ -478,7 +478,13 @@ func (c *seeCtx) load1(addr ssa.Value) *Expr {
 		}
 		return mkPhi(alts, nil)
 	}
-	return p // auto-deref: *p described as p
+	// auto-deref: *p is described by p's expression, typed as the pointee
+	if pt, ok := addr.Type().Underlying().(*types.Pointer); ok {
+		q := *p
+		q.Typ = pt.Elem()
+		return &q
+	}
+	return p
 }
 
 // deref: value of array/slice addressed
@@ -570,11 +576,49 @@ func storesToPlace(a *ssa.Alloc, path []int) []placeStore {
 	return out
 }
 
+// escapesToCall reports whether the address of a is handed to a call (which
+// may then write through it), other than as a closure binding.
+func escapesToCall(a *ssa.Alloc) bool {
+	refs := a.Referrers()
+	if refs == nil {
+		return false
+	}
+	for _, r := range *refs {
+		if ci, ok := r.(ssa.CallInstruction); ok {
+			for _, arg := range ci.Common().Args {
+				if arg == ssa.Value(a) {
+					return true
+				}
+			}
+		}
+		if mi, ok := r.(*ssa.MakeInterface); ok && mi.X == ssa.Value(a) {
+			return true
+		}
+	}
+	return false
+}
+
 func (c *seeCtx) loadAlloc(a *ssa.Alloc, path []int) *Expr {
 	elem := a.Type().(*types.Pointer).Elem()
 	t := elem
 	for _, i := range path {
 		t = t.Underlying().(*types.Struct).Field(i).Type()
+	}
+	if escapesToCall(a) && len(storesDeeper(a, nil)) == 0 {
+		// never stored locally, only written by a callee through the pointer
+		// (var x T; Decode(&x)): an opaque place
+		nm := a.Comment
+		if nm == "" {
+			nm = a.Name()
+		}
+		e := &Expr{Op: OpGlobal, Name: "local:" + nm, Typ: elem, V: a}
+		tt := elem
+		for _, i := range path {
+			st := tt.Underlying().(*types.Struct)
+			e = fieldOf(e, st.Field(i), i)
+			tt = st.Field(i).Type()
+		}
+		return e
 	}
 	stores := c.liveStores(storesToPlace(a, path), c.at)
 	var alts []*Expr
